@@ -16,7 +16,7 @@ META = {
         "exhaustive: every (pattern, permutation) pair below the tier's length bounds, every entry point; "
         "generated: planted/random pairs, colour vectors, lists of patterns, and histories re-using one "
         "pattern object (obtained via Perm(), to_standard (memoised/shared), from_string, MeshPatt.pattern) "
-        "against many targets. Non-trivial: |p|>=2, |t|>|p| and 0 < #occurrences < C(|t|,|p|); for histories "
+        "against many targets, including lazily consumed searches that overlap in time. Non-trivial: |p|>=2, |t|>|p| and 0 < #occurrences < C(|t|,|p|); for histories "
         "additionally the same pattern object searched >= 2 times against different targets. Distinct = "
         "distinct case content."
     ),
@@ -139,7 +139,32 @@ def check_history(case):
     """case: {"pool": [[how, perm], ...], "ops": [[pool index, target, entry], ...]}"""
     pool = [(_make(how, tuple(p)), tuple(p)) for how, p in case["pool"]]
     used = {}
-    for step, (idx, t, entry) in enumerate(case["ops"]):
+    gens = []  # lazily consumed searches: [iterator, expected, collected, pattern, target]
+    overlapped = False
+    for step, op in enumerate(case["ops"]):
+        if op[0] == "lazy":
+            P, p = pool[op[1] % len(pool)]
+            t = tuple(op[2])
+            it = P.occurrences_in(Perm(t)) if op[1] % 2 == 0 else Perm(t).occurrences_of(P)
+            if any(g[3] is P and not g[5] for g in gens):
+                overlapped = True
+            gens.append([iter(it), ref.occ(p, t), [], P, t, False])
+            used.setdefault(op[1] % len(pool), set()).add(t)
+            continue
+        if op[0] == "adv":
+            if not gens:
+                continue
+            g = gens[op[1] % len(gens)]
+            for _ in range(op[2]):
+                try:
+                    g[2].append(next(g[0]))
+                except StopIteration:
+                    g[5] = True
+                    break
+            if g[2] != g[1][: len(g[2])] or (g[5] and g[2] != g[1]):
+                return BAD("history_lazy", {"step": step, "pattern": list(g[3]), "target": list(g[4]), "got_so_far": g[2], "expected": g[1]})
+            continue
+        idx, t, entry = op
         P, p = pool[idx % len(pool)]
         t = tuple(t)
         T = Perm(t)
@@ -177,8 +202,14 @@ def check_history(case):
         if bad:
             return BAD("history_" + entry, {"step": step, "pattern": list(p), "target": list(t), "got": got, "expected": expected})
         used.setdefault(idx % len(pool), set()).add(t)
+    for g in gens:
+        if not g[5]:
+            g[2].extend(g[0])
+            g[5] = True
+        if g[2] != g[1]:
+            return BAD("history_lazy", {"step": "drain", "pattern": list(g[3]), "target": list(g[4]), "got": g[2], "expected": g[1]})
     nt = any(len(ts) >= 2 and len(pool[i][1]) >= 2 for i, ts in used.items())
-    return OK(nt, "history")
+    return OK(nt, "history_overlapping_lazy_searches" if overlapped else "history")
 
 
 CHECKS = {"pair": check_pair, "coloured": check_coloured, "multi": check_multi, "history": check_history}
@@ -223,6 +254,13 @@ def history_cases(draw):
     for _ in range(nops):
         idx = draw(st.integers(0, len(pool) - 1))
         p = pool[idx][1]
+        kind = draw(st.integers(0, 5))
+        if kind == 0:
+            ops.append(["lazy", idx, list(draw(_plant(p)))])
+            continue
+        if kind == 1:
+            ops.append(["adv", draw(st.integers(0, 3)), draw(st.integers(1, 6))])
+            continue
         mode = draw(st.sampled_from(["planted", "random", "short"]))
         if mode == "planted":
             t = draw(_plant(p))
@@ -260,6 +298,8 @@ def run(acc, tier):
     else:
         bounds = (5, 7)
         counts = (3000, 1500, 1000, 800)
+        engine.fuzz(acc, "pair", CHECKS, 60000, corpus_seeds=[[3, 5, 10, 200, 30, 5, 9, 7, 1, 8, 2, 6], [2, 4, 9, 1, 3, 2]])
+        engine.fuzz(acc, "coloured", CHECKS, 30000, nproc=8)
     engine.pmap(acc, shard_exhaustive, extra=bounds)
     engine.pmap(acc, shard_generated, extra=counts)
     acc.note("exhaustive_bound", {"max_pattern_len": bounds[0], "max_perm_len": bounds[1]})
